@@ -142,6 +142,7 @@ impl PipeLayer {
   /// `has_tablet` = false builds the shipped driver without a tablet switch (its `t: None` paths)
   pub fn new(has_tablet: bool) -> PipeLayer {
     let p = Pipes::new();
+    crate::sysseam::forget_epoll_registrations();
     let drv = VerifRealDriver::from_fds(p.kbd_r, p.out_w, if has_tablet { Some(p.tab_r) } else { None });
     PipeLayer { p, drv, stats: WireStats::default(), last_actual: None }
   }
@@ -211,6 +212,9 @@ impl ByteLayer for PipeLayer {
   fn unplug(&mut self, tablet: bool) {
     crate::sysseam::fail_reads(if tablet { self.p.tab_r } else { self.p.kbd_r }, libc::ENODEV);
   }
+  fn take_driver(&mut self) -> Option<VerifRealDriver> { Some(std::mem::replace(&mut self.drv, VerifRealDriver::from_fds(-1, -1, None))) }
+  fn put_driver(&mut self, d: VerifRealDriver) { self.drv = d; }
+  fn device_fds(&self) -> (i32, i32) { (self.p.kbd_r, self.p.tab_r) }
   fn sabotage_reader(&mut self, tablet: bool) {
     // The descriptor number must stay allocated (another worker thread could be handed it the
     // moment it is closed), so the write end is dup2'ed over the read end: a read on a descriptor
